@@ -3,13 +3,18 @@
 Lean: Model/Forward.lean (relay machine, permission decision, listener table), Model/Socks.lean (SOCKS parser),
       Lemmas/Forward*.lean, Props/C20.lean, Gen/C20.lean (regenerated), Drivers/C20.lean.
 Correspondence: the real SSHSOCKSForwarder / SSHLocalForwarder+SSHForwarder objects with recording transports vs the
-      models (all chunkings / event orders, legal and illegal); real authenticated sessions for every
-      no-port-forwarding x permitopen x certificate set x destination x request kind x application answer vs the
-      decision function; `permitopen` value parsing; listener tables of real connections (incl. the
-      creation-vs-cleanup race) vs the table model.
+      models (all chunkings / event orders, legal and illegal, incl. an open that raises something other than
+      ChannelOpenError); the real `forward_connection` on a stand-in connection vs `destOpen`; `sockDest` vs the
+      socket layer itself (getaddrinfo, connect to UNIX names); real authenticated sessions for every
+      no-port-forwarding x permitopen x certificate set x destination (incl. ports above 65535 and path names
+      with a NUL) x request kind x application answer vs the decision function; `permitopen` value parsing;
+      listener tables of real connections (incl. the creation-vs-cleanup race and UNIX paths forwarded twice) vs
+      the table model.  All legs share one run of the Lean driver.
 Oracle: real local / remote / UNIX / SOCKS forwards over loopback endpoints scripted from the four ends (data both
       ways, half-close, close, RST, data before confirmation, crossing events, connection loss): bytes and EOF seen
-      at the endpoints, sockets released, no exception reaching the event loop; denied requests create nothing.
+      at the endpoints, sockets released, no exception reaching the event loop; denied requests create nothing;
+      edge cases (_c20_cases.py): the address served is the address asked about, listen addresses the resolver
+      rejects, SSH connection lost while the destination is being connected, open that raises another exception.
 """
 
 from __future__ import annotations
@@ -51,13 +56,20 @@ TRUSTED = [
     'asyncio selector transports and the SSH channel layer deliver data/EOF only while the protocol holds the '
     'transport, call connection_lost once, and close a socket transport whose eof_received() returns False '
     '(the `legal` predicate of Model/Forward.lean; the channel layer is the subject of C07-C09)',
-    'kernel TCP/UNIX socket semantics on loopback; `ipaddress.ip_address` text forms',
+    'kernel TCP/UNIX socket semantics on loopback; `ipaddress.ip_address` text forms; that `getaddrinfo` reduces a '
+    'numeric service below 2^31 modulo 65536 and that the kernel reads a socket path name up to its first NUL '
+    '(`sockDest`; compared with the socket layer of the machine on every run)',
     '/proc/self/fd and /proc/net/{tcp,unix} as the view of open and listening sockets',
 ]
 ASSUMPTIONS = [
     'permitopen port strings are ASCII digits with optional sign/blanks (other int() spellings are outside the '
     'parse model; the decision model takes the parsed set)',
-    'two listeners of one connection never bind the same key (the kernel refuses the second bind)',
+    'a TCP address bound by a listener of the connection cannot be bound again (the kernel refuses the second '
+    'bind); two creations of a listener for the SAME UNIX path are never in flight at the same time on one '
+    'connection (the server works through global requests one at a time; an application calling '
+    'forward_local_path twice concurrently for one path is outside the model) -- `llegalRun`',
+    'a streamlocal-forward request whose path name has a NUL inside is shown to the application and then fails in '
+    'the listener creation (ValueError of os.stat, reported as OSError): not part of the decision model',
     'a permitopen set that is present is non-empty (`_add_permitopen` always adds a pair), so "absent" and "empty" '
     'coincide in the model; key options are always a dictionary (never None), an entry without options giving {}',
 ]
@@ -896,10 +908,15 @@ def correspondence(ctx: Ctx) -> CorrResult:
                 'SSHSOCKSForwarder, compared call by call (writes, close, forward(host, port), escaping exception, '
                 'early data); relay: seeded event sequences (3/4 legal by the transport contract, 1/4 arbitrary) on '
                 'the real SSHLocalPort/PathForwarder + SSHForwarder with recording transports, compared event by '
-                'event; permission: authenticated sessions for (no-port-forwarding x none/cert+/cert- x 8 permitopen '
-                'sets) x 4 request kinds x destinations x application answer, verdict and whether the application '
+                'event, incl. the open raising another exception; destination side: the real forward_connection / '
+                'forward_unix_connection on a stand-in connection (alive / lost while connecting) followed by legal '
+                'events; sockDest against getaddrinfo and connects to UNIX names with NUL; '
+                'permission: authenticated sessions for (no-port-forwarding x none/cert+/cert- x 8 permitopen '
+                'sets) x 4 request kinds x destinations (incl. ports above 65535, NUL in path names, abstract names) x '
+                'application answer, verdict and whether the application '
                 'was asked; permitopen values through import_authorized_keys; listener tables of real connections '
-                'incl. creation racing cleanup (sockets left listening). distinct = distinct inputs per leg')
+                'incl. creation racing cleanup and UNIX paths forwarded twice (sockets left listening). '
+                'distinct = distinct inputs per leg')
     return res
 
 
@@ -1554,7 +1571,12 @@ def oracle(ctx: Ctx) -> OracleResult:
                 'full-duplex pipe (prefix/order, required delivery, EOF and close propagation, sockets released while '
                 'connected and after close, no loop exception; a problem must show in 3 attempts); permission '
                 'sessions judged against an independent statement of the OpenSSH rule; listener histories incl. '
-                'creation racing cleanup judged by listening sockets left')
+                'creation racing cleanup and repeated UNIX paths judged by listening sockets left; deterministic edge '
+                'cases on real sockets (3 attempts): requests for ports above 65535 / path names with NUL against an '
+                'application policy about the address actually reached (+ controls that must be served), listen '
+                'addresses the resolver rejects with a bystander forward, SSH link cut between the channel open and '
+                'the destination connect (5 forward kinds), channel open ending in another exception (raising accept '
+                'handler, malformed confirmation)')
     return res
 
 
